@@ -51,15 +51,44 @@ def rename_text(lines):
     return "".join("CONFIG_%s %sCONFIG_%s\n" % (o, "!" if inv else "", n) for o, n, inv in lines)
 
 
-def observe(run, kconf, names, info, lines, tab):
+def observe(run, kconf, names, info, lines, tab, first=0):
+    """All five outputs of the instance as it is.  `first` rotates which generator runs first (and therefore has to
+    evaluate the options itself instead of finding the values another generator left cached)."""
     import kconfgen.core as kg
 
     d = run.scratch
     p = os.path.join(d, "c07_out")
-    # sdkconfig (+ deprecated block)
-    kconf.write_config(p, save_old=False, write_deprecated=True)
-    with open(p, newline="") as f:
-        text = f.read()
+    got = {}
+
+    def g_sdk():
+        kconf.write_config(p, save_old=False, write_deprecated=True)
+        with open(p, newline="") as f:
+            got["text"] = f.read()
+
+    def g_hdr():
+        kconf.write_autoconf(p, write_deprecated=True)
+        with open(p) as f:
+            got["hdr"] = dict(re.findall(r"^#define CONFIG_(\w+) (.*)$", f.read(), re.M))
+
+    def g_cm():
+        kg.write_cmake(kconf, p, write_deprecated=True)
+        with open(p) as f:
+            got["cm"] = dict(re.findall(r'^set\(CONFIG_(\w+) "(.*)"\)$', f.read(), re.M))
+
+    def g_js():
+        got["js"] = kg.get_json_values(kconf)
+
+    def g_ac():
+        dd_ = os.path.join(d, "c07_deps")
+        kconf.sync_deps(dd_)
+        with open(os.path.join(dd_, "auto.conf")) as f:
+            got["ac"] = dict(re.findall(r"^CONFIG_(\w+)=(.*)$", f.read(), re.M))
+
+    gens = [g_sdk, g_hdr, g_cm, g_js, g_ac]
+    for g in gens[first % 5 :] + gens[: first % 5]:
+        g()
+    text, hdr, cm, js, ac = got["text"], got["hdr"], got["cm"], got["js"], got["ac"]
+    dd = os.path.join(d, "c07_deps")
     sdk = {ln[0]: ln[1] for ln in storecheck.parse_sdkconfig(text, info)}
     block = {}
     in_dep = False
@@ -79,20 +108,6 @@ def observe(run, kconf, names, info, lines, tab):
             m = evalcheck._SET.match(s)
             if m:
                 block[m.group(1)] = m.group(2)
-    # header
-    kconf.write_autoconf(p, write_deprecated=True)
-    with open(p) as f:
-        hdr = dict(re.findall(r"^#define CONFIG_(\w+) (.*)$", f.read(), re.M))
-    # cmake
-    kg.write_cmake(kconf, p, write_deprecated=True)
-    with open(p) as f:
-        cm = dict(re.findall(r'^set\(CONFIG_(\w+) "(.*)"\)$', f.read(), re.M))
-    js = kg.get_json_values(kconf)
-    # auto.conf
-    dd = os.path.join(d, "c07_deps")
-    kconf.sync_deps(dd)
-    with open(os.path.join(dd, "auto.conf")) as f:
-        ac = dict(re.findall(r"^CONFIG_(\w+)=(.*)$", f.read(), re.M))
     import shutil
 
     shutil.rmtree(dd, ignore_errors=True)
@@ -248,10 +263,16 @@ def main(run):
             kconf = kc.build(text, run.scratch, renames=rename_text(lines))
             outs = []
             err = None
-            for asg in ktree.assignments(vars_):
+            all_asgs = list(ktree.assignments(vars_))
+            for ai, asg in enumerate(all_asgs):
+                # entered from another, fully evaluated configuration; a different generator goes first each time
+                if len(all_asgs) > 1:
+                    evalcheck.apply_assignment(kconf, info, vars_, rng.choice(all_asgs))
+                    for s_ in kconf.unique_defined_syms:
+                        s_.str_value
                 evalcheck.apply_assignment(kconf, info, vars_, asg)
                 try:
-                    outs.append(observe(run, kconf, names, info, lines, tab))
+                    outs.append(observe(run, kconf, names, info, lines, tab, first=ai))
                 except Exception as e:
                     err = (asg, "%s: %s" % (type(e).__name__, str(e)[:200]))
                     break
